@@ -75,6 +75,10 @@ pub const DICTIONARY: &[&str] = &[
     "/vendor/", "vendor/", "node_modules/", "/internal/", "/src/", "/pkg/mod/", ".git", "/-/", "/+/", "gitlab.com", "bitbucket.org", "gopkg.in", "gopkg.in/yaml.v2",
     ":~:", ":~:text=a", "#:~:", "/./", "/../", "/.", "/..", "a/.", "a/..", "0x", "0X", "\u{10}", "\u{19}", "\u{7f}", "\u{200b}", "\u{202e}", "\u{feff}", "\u{2060}",
     "1.2.3.0", "2.1.0.0.0", "1.0.0.0", "0.0", ".0", "+incompatible", "v1.2.3", "1!2.0", ".post1", "api/v2", "/v3/index.json", "--", "-_-", "__", "..-",
+    // template placeholders and back-references
+    "{}", "{0}", "{name}", "{subpath}", "{version}", "{namespace}", "{qualifiers}", "{type}", "%s", "$1", "\\1", "{{", "}}",
+    // markers other tools strip: aliases, suffixes, wrappers, one layer at a time
+    "npm:", "npm:npm:", ".git", ".git/", ".git//", "[[", "]]", "[[1]]", "vv", "((", "))", "\"\"", "''", "00", "000", "#sha256=ab", "#egg=x", "dist/", "/.git",
 ];
 
 /// Versions in the notations of the ecosystems (what a version-normalising special case would
@@ -83,6 +87,8 @@ pub const VERSION_VOCABULARY: &[&str] = &[
     "1.0.0", "1.2.3.0", "2.1.0.0.0", "1.0.0.0.0.0", "1.0", "1", "0", "0.0.0", "01.002.0003", "1.0.0-rc.1+build.5", "1.0.0+build", "1.0.0+a+b", "v1.2.3", "V1.2.3",
     "1.0.0+incompatible", "v0.0.0-20200101000000-abcdef123456", "1!2.0", "2.0.post1", "1.0a1", "1.0.dev0", "1.0-SNAPSHOT", "1.0.RELEASE", "1.0.Final", "[1.0,2.0)", "^1.2",
     "~> 1.0", ">=1,<2", "latest", "1.0.0-alpha.beta", "1.0.0-0.3.7", "1.0.0-x.7.z.92", "1.2.3-4", "1_0", "1.0/../2.0", "a/.", "1.0/./x",
+    // the same normalisation applicable more than once
+    "[1.0]", "[[1.3.4]]", "[[[1]]]", "vv1.0", "Vv2", "vvv3", "1.001.0", "6.000.1304-beta01", "001.002", "1.0.0.0.0.0.0", "13.0.1-Beta2", "1.0-RC1+Build.5", "1.0-SNAPSHOT-SNAPSHOT", "v1.0.0+incompatible+incompatible", "1.0..0", "==1.0==",
 ];
 
 /// Namespaces and names as they look in each ecosystem, with hosts and group ids whose letter
@@ -102,9 +108,9 @@ pub fn realistic_ns_name(r: &mut Rng, ty: &str) -> (Vec<String>, String) {
     let (ns, name): (&[&str], &[&str]) = match ty {
         "golang" => (
             &["github.com/foo", "github.com/go-redis/redis", "golang.org/x", "k8s.io", "gopkg.in", "gitlab.com/a/b", "bitbucket.org/a", "example.com/app/vendor/github.com/foo", "vendor/github.com/foo", "go.uber.org"],
-            &["bar", "v8", "v2", "yaml.v2", "klog", "text", "zap", "Bar"],
+            &["bar", "v8", "v2", "yaml.v2", "klog", "text", "zap", "Bar", "repo.git", "repo.git/", "repo.git//", "mux.git.git", "...", "!burnt!sushi"],
         ),
-        "npm" => (&["@angular", "@babel", "@types", "@Scope", ""], &["core", "cli", "lodash", "node", "JSONStream", "left-pad"]),
+        "npm" => (&["@angular", "@babel", "@types", "@Scope", "", "npm:", "npm:npm:", "@npm:"], &["core", "cli", "lodash", "node", "JSONStream", "left-pad", "npm:left-pad", "npm:npm:x", "@angular%2Fcli"]),
         "maven" => (&["org.apache.commons", "org.springframework.boot", "com.google.guava", "junit", "io.netty"], &["commons-lang3", "guava", "junit", "spring-boot-starter", "g:a"]),
         "pypi" => (&["", ""], &["Django", "zope.interface", "zope--interface", "requests[security]", "Pillow", "ruamel.yaml", "backports.ssl_match_hostname", "a-_-b"]),
         "nuget" => (&["", ""], &["Newtonsoft.Json", "EntityFramework", "NUnit", "Microsoft.Extensions.Logging"]),
@@ -134,9 +140,9 @@ pub fn key_vocabulary(key: &str) -> &'static [&'static str] {
         "arch" => &["x86_64", "amd64", "i386", "arm64", "noarch", "all", "src"],
         "os" => &["linux", "windows", "darwin"],
         "repository_url" => REGISTRY_URLS,
-        "download_url" => &["https://e.x/n-1.0.tgz", "http://e.x/a%20b", "ftp://e.x/a"],
+        "download_url" => &["https://e.x/n-1.0.tgz", "http://e.x/a%20b", "ftp://e.x/a", "#sha256=abcd", "#", "https://e.x/a#egg=x", "https://e.x/get?file=a.tgz"],
         "vcs_url" => &["git+https://github.com/a/b.git@abc", "git+ssh://git@e.x/a", "svn+https://e.x/a", "hg+https://e.x", "git://e.x/a.git#v1"],
-        "file_name" => &["n-1.0.tgz", "a b.jar", "a/b.zip", "n.tar.gz"],
+        "file_name" => &["n-1.0.tgz", "a b.jar", "a/b.zip", "n.tar.gz", "dist/", "/", "a/", "./x"],
         _ => &["1", "true", "stable", "main"],
     }
 }
